@@ -3,6 +3,7 @@ package lens
 import (
 	"context"
 	"fmt"
+	"time"
 
 	"github.com/notaryproject/notation-core-go/signature"
 	"github.com/notaryproject/notation-go"
@@ -242,3 +243,36 @@ func (g gateLogger) Warnln(args ...interface{})                { g.f() }
 func (g gateLogger) Error(args ...interface{})                 { g.f() }
 func (g gateLogger) Errorf(format string, args ...interface{}) { g.f() }
 func (g gateLogger) Errorln(args ...interface{})               { g.f() }
+
+// rivalGate lets a lens run a second, honest call ("rival") on the same long-lived object at the same time as the call
+// it judges, in the one alignment that matters for anything that lets concurrent callers share work: the rival is
+// already inside (held at the first scripted collaborator it consults) when the judged call begins, and goes on from
+// there while the judged call runs. Collaborators call hold() through their Gate fields.
+type rivalGate struct {
+	task    *rt.Task
+	in, run bool
+}
+
+func (g *rivalGate) hold() {
+	if g.task == nil || g.in || rt.Cur == nil || rt.Cur.Current() != g.task {
+		return
+	}
+	g.in = true
+	rt.WaitUntil("rival-gate", func() bool { return g.run }, time.Time{})
+}
+
+// concurrently runs rival on a task of its own and judged on the calling task, as described at rivalGate; both have
+// returned when it returns.
+func concurrently(sim *rt.Sim, g *rivalGate, rival, judged func()) {
+	done := false
+	g.in, g.run = false, false
+	g.task = sim.Go("rival", func() {
+		defer func() { done, g.in = true, true }()
+		rival()
+	})
+	rt.WaitUntil("rival-inside", func() bool { return g.in }, time.Time{})
+	g.run = true
+	judged()
+	rt.WaitUntil("rival-done", func() bool { return done }, time.Time{})
+	g.task = nil
+}
